@@ -1,6 +1,7 @@
 import PV.Model.Tree.BST
 import PV.Model.Tree.AVL
 import PV.Model.Tree.RB
+import PV.Model.Tree.Run
 import PV.Driver.Util
 /-! driver for the tree family (C12, C13, C14).
     ops:  new bst|rb|avl  | ins ORD | rem ORD | get ORD | each J | clear | shape | count
@@ -14,15 +15,22 @@ abbrev K := Nat × Nat     -- (ordinal, object id)
 abbrev V := Nat
 def cmpK (a b : K) : Ordering := compare a.1 b.1
 
+/-- the state of one of the three variants: tree and `nnodes`, exactly the state of `PV.Tree.*Step` -/
 inductive AnyT where
-  | bst (t : BT K V) | avl (t : AT K V) | rb (t : RT K V)
+  | bst (s : BT K V × Int) | avl (s : AT K V × Int) | rb (s : RT K V × Int)
 
 def AnyT.toBT : AnyT → BT K V
-  | .bst t => t | .avl t => t.toBT | .rb t => t.toBT
+  | .bst s => s.1 | .avl s => s.1.toBT | .rb s => s.1.toBT
+
+/-- one public call on the model: the proven step functions of `PV.Model.Tree.Run` -/
+def AnyT.step (t : AnyT) (op : Op K V) : Option (AnyT × Out K V) :=
+  match t with
+  | .bst s => let (s', o) := bstStep cmpK s op; some (.bst s', o)
+  | .avl s => (avlStep cmpK s op).map fun (s', o) => (.avl s', o)
+  | .rb s => (rbStep cmpK s op).map fun (s', o) => (.rb s', o)
 
 structure St where
-  t : AnyT := .bst .nil
-  n : Int := 0                    -- nnodes
+  t : AnyT := .bst (.nil, 0)
   next : Nat := 0                 -- object id counter
   spec : List (K × V) := []       -- sorted association list
   plain : Bool := false           -- tree created without destroy notifiers: nothing is ever destroyed
@@ -34,90 +42,55 @@ partial def fmtShape : BT K V → String
   | .nil => "."
   | .node l k _ r => "(" ++ fmtShape l ++ " " ++ toString k.1 ++ " " ++ fmtShape r ++ ")"
 
-def specIns (l : List (K × V)) (k : K) (v : V) : List (K × V) × List (K × V) :=
-  match l with
-  | [] => ([(k, v)], [])
-  | p :: r =>
-    if k.1 < p.1.1 then ((k, v) :: p :: r, [])
-    else if k.1 = p.1.1 then ((k, v) :: r, [p])
-    else let (r', d) := specIns r k v; (p :: r', d)
-
-def specDel (l : List (K × V)) (o : Nat) : List (K × V) × List (K × V) :=
-  (l.filter (·.1.1 ≠ o), l.filter (·.1.1 = o))
-
 def fmtLogP (plain : Bool) (d : List (K × V)) : String := if plain then "[]" else fmtLog d
 
 def sd (a b : String) : String := if a = b then a else a ++ " SPECDIFF " ++ b
+
+def fmtOut (plain : Bool) : Out K V → String
+  | .ins n d => s!"n={n} d={fmtLogP plain d}"
+  | .rem f n d => (if f then "T" else "F") ++ s!" n={n} d={fmtLogP plain d}"
+  | .got none => "nil"
+  | .got (some v) => s!"v{v}"
+  | .visited ps => "[" ++ " ".intercalate (ps.map fmtPair) ++ "]"
+  | .cleared n d => s!"n={n} d={fmtLogP plain d}"
+  | .num n => toString n
+
+def doOp (s : St) (op : Op K V) (bump : Bool) : IO (St × Bool) := do
+  match s.t.step op with
+  | none => IO.println "fault"; return (s, true)
+  | some (t', o) =>
+    let (sp', so) := specStep cmpK s.spec op
+    IO.println (sd (fmtOut s.plain o) (fmtOut s.plain so))
+    return ({ s with t := t', spec := sp', next := if bump then s.next + 1 else s.next }, false)
 
 def step (s : St) (toks : List String) : IO (St × Bool) := do
   match toks with
   | "new" :: ty :: flags =>
     let plain := flags.contains "plain"
     match ty with
-    | "bst" => IO.println "ok"; return ({ t := .bst .nil, plain := plain }, false)
-    | "avl" => IO.println "ok"; return ({ t := .avl .nil, plain := plain }, false)
-    | "rb" => IO.println "ok"; return ({ t := .rb .nil, plain := plain }, false)
+    | "bst" => IO.println "ok"; return ({ t := .bst (.nil, 0), plain := plain }, false)
+    | "avl" => IO.println "ok"; return ({ t := .avl (.nil, 0), plain := plain }, false)
+    | "rb" => IO.println "ok"; return ({ t := .rb (.nil, 0), plain := plain }, false)
     | _ => IO.println "bad-op"; return (s, false)
   | ["ins", o] =>
     match o.toNat? with
     | none => IO.println "bad-op"; return (s, false)
-    | some o =>
-      let k : K := (o, s.next)
-      let v : V := s.next
-      let res : Option (AnyT × Bool × List (K × V)) :=
-        match s.t with
-        | .bst t => let (t', a, d) := t.ins cmpK k v; some (.bst t', a, d)
-        | .avl t => (t.ins cmpK k v).map fun (t', _, a, d) => (.avl t', a, d)
-        | .rb t => (t.ins cmpK k v).map fun (t', a, d) => (.rb t', a, d)
-      match res with
-      | none => IO.println "fault"; return (s, true)
-      | some (t', a, d) =>
-        let n' := if a then s.n + 1 else s.n
-        let (sp', sdl) := specIns s.spec k v
-        IO.println (sd s!"n={n'} d={fmtLogP s.plain d}" s!"n={sp'.length} d={fmtLogP s.plain sdl}")
-        return ({ s with t := t', n := n', next := s.next + 1, spec := sp' }, false)
+    | some o => doOp s (.ins (o, s.next) s.next) true
   | ["rem", o] =>
     match o.toNat? with
     | none => IO.println "bad-op"; return (s, false)
-    | some o =>
-      let k : K := (o, 0)
-      let res : Option (AnyT × Bool × List (K × V)) :=
-        match s.t with
-        | .bst t => let (t', f, d) := t.del cmpK k; some (.bst t', f, d)
-        | .avl t => (t.del cmpK k).map fun (t', _, f, d) => (.avl t', f, d)
-        | .rb t => (t.del cmpK k).map fun (t', f, d) => (.rb t', f, d)
-      match res with
-      | none => IO.println "fault"; return (s, true)
-      | some (t', f, d) =>
-        let n' := if f then s.n - 1 else s.n
-        let (sp', sdl) := specDel s.spec o
-        let fs := if f then "T" else "F"
-        let sfs := if sdl.isEmpty then "F" else "T"
-        IO.println (sd s!"{fs} n={n'} d={fmtLogP s.plain d}" s!"{sfs} n={sp'.length} d={fmtLogP s.plain sdl}")
-        return ({ s with t := t', n := n', spec := sp' }, false)
+    | some o => doOp s (.rem (o, 0)) false
   | ["get", o] =>
     match o.toNat? with
     | none => IO.println "bad-op"; return (s, false)
-    | some o =>
-      let r := s.t.toBT.lookup cmpK (o, 0)
-      let sp := (s.spec.find? (·.1.1 = o)).map (·.2)
-      let f : Option V → String := fun | none => "nil" | some v => s!"v{v}"
-      IO.println (sd (f r) (f sp)); return (s, false)
+    | some o => doOp s (.get (o, 0)) false
   | ["each", j] =>
     match j.toNat? with
     | none => IO.println "bad-op"; return (s, false)
-    | some j =>
-      let vis := s.t.toBT.foreachStop j
-      let sp := if j = 0 then s.spec else s.spec.take j
-      let f := fun (l : List (K × V)) => "[" ++ " ".intercalate (l.map fmtPair) ++ "]"
-      IO.println (sd (f vis) (f sp)); return (s, false)
-  | ["clear"] =>
-    let d := s.t.toBT.toList
-    let t' : AnyT := match s.t with | .bst _ => .bst .nil | .avl _ => .avl .nil | .rb _ => .rb .nil
-    IO.println (sd s!"n={s.n - d.length} d={fmtLogP s.plain d}" s!"n=0 d={fmtLogP s.plain s.spec}")
-    return ({ s with t := t', n := s.n - d.length, spec := [] }, false)
+    | some j => doOp s (.each j) false
+  | ["clear"] => doOp s .clear false
+  | ["count"] => doOp s .count false
   | ["shape"] => IO.println (fmtShape s.t.toBT); return (s, false)
-  | ["count"] => IO.println (sd (toString s.n) (toString s.spec.length)); return (s, false)
   | _ => IO.println "bad-op"; return (s, false)
 
 def run : IO Unit := do
